@@ -1,5 +1,147 @@
 package harness
 
-import "testing"
+import (
+	"bytes"
+	"fmt"
+	"os"
+	"os/exec"
+	"sort"
+	"strings"
+	"sync"
+	"testing"
+)
 
-func selfTest(t *testing.T, root string, args []string) int { return 0 }
+// HashMain prints, for the first n seeded cases of a property, the hash of the
+// canonical event log of everything its check ran. It is the child side of the
+// determinism self-test.
+func HashMain(t *testing.T, p *Prop, seed uint64, tier string, n int) int {
+	if err := CheckEncodableTable(); err != nil {
+		fmt.Fprintln(os.Stderr, "HARNESS-ERROR:", err)
+		return 2
+	}
+	idx := 0
+	x := NewExec()
+	var out bytes.Buffer
+	runInBubbles(t, 64, func(_ *Exec) bool {
+		if idx >= n {
+			return false
+		}
+		c := MakeCase(p, seed, tier, CaseRef{Index: uint64(idx)})
+		hx := NewExec()
+		hx.HashOn = true
+		viol, _ := p.Check(hx, c)
+		if hx.Dirty {
+			x.Dirty = true
+		}
+		fmt.Fprintf(&out, "%s %d %016x v=%d\n", p.ID, idx, hx.Hash, len(viol))
+		idx++
+		return true
+	}, x)
+	os.Stdout.Write(out.Bytes())
+	return 0
+}
+
+// selfTest proves determinism: for every property, the first n seeded cases
+// are run in separate processes at GOMAXPROCS 1, 4 and 16, twice each (and in
+// the -race build for the properties that use it); the per-case hashes of the
+// canonical event logs must be identical everywhere. A mismatch is harness
+// trouble (exit 2), never a violation.
+func selfTest(t *testing.T, root string, args []string) int {
+	n := 40
+	for i, a := range args {
+		if a == "--n" && i+1 < len(args) {
+			fmt.Sscanf(args[i+1], "%d", &n)
+		}
+	}
+	var only []string
+	for _, a := range args {
+		if strings.HasPrefix(a, "C") {
+			only = append(only, a)
+		}
+	}
+	ids := PropIDs()
+	if len(only) > 0 {
+		ids = only
+	}
+	type cfg struct {
+		procs string
+		race  bool
+		rep   int
+	}
+	var mu sync.Mutex
+	bad := 0
+	total := 0
+	var wg sync.WaitGroup
+	sem := make(chan struct{}, 8)
+	for _, id := range ids {
+		p := Registry[id]
+		if p == nil || p.Gen == nil {
+			continue
+		}
+		cfgs := []cfg{{"1", false, 0}, {"1", false, 1}, {"4", false, 0}, {"4", false, 1}, {"16", false, 0}, {"16", false, 1}}
+		if p.Race {
+			cfgs = append(cfgs, cfg{"4", true, 0}, cfg{"16", true, 1})
+		}
+		outs := make([]string, len(cfgs))
+		for ci, c := range cfgs {
+			wg.Add(1)
+			go func(ci int, c cfg) {
+				defer wg.Done()
+				sem <- struct{}{}
+				defer func() { <-sem }()
+				cmd := exec.Command(selfExe(c.race), "-test.run", "^TestEntry$", "-test.timeout", "0", "hash", id, fmt.Sprint(n))
+				cmd.Env = append(os.Environ(), "GOMAXPROCS="+c.procs, "VERIF_SEED=1")
+				if c.race {
+					cmd.Env = append(cmd.Env, "GORACE=log_path=/dev/null halt_on_error=0")
+				}
+				b, err := cmd.CombinedOutput()
+				if err != nil {
+					b = append(b, []byte("\nERROR: "+err.Error())...)
+				}
+				var lines []string
+				for _, ln := range strings.Split(string(b), "\n") {
+					if strings.HasPrefix(ln, id+" ") || strings.HasPrefix(ln, "ERROR") {
+						lines = append(lines, ln)
+					}
+				}
+				sort.Strings(lines)
+				outs[ci] = strings.Join(lines, "\n")
+			}(ci, c)
+		}
+		wg.Wait()
+		mu.Lock()
+		ok := true
+		for ci := 1; ci < len(outs); ci++ {
+			if outs[ci] != outs[0] {
+				ok = false
+				a, b := strings.Split(outs[0], "\n"), strings.Split(outs[ci], "\n")
+				for k := 0; k < len(a) && k < len(b); k++ {
+					if a[k] != b[k] {
+						fmt.Printf("DETERMINISM MISMATCH %s: GOMAXPROCS=%s race=%v rep=%d: %q vs %q\n", id, cfgs[ci].procs, cfgs[ci].race, cfgs[ci].rep, a[k], b[k])
+						break
+					}
+				}
+				if len(a) != len(b) {
+					fmt.Printf("DETERMINISM MISMATCH %s: %d vs %d lines (config %d)\n", id, len(a), len(b), ci)
+				}
+			}
+		}
+		nl := len(strings.Split(outs[0], "\n"))
+		total += nl
+		if !ok || nl < n {
+			bad++
+			if nl < n {
+				fmt.Printf("selftest %s: only %d of %d case hashes produced:\n%s\n", id, nl, n, trunc(outs[0], 600))
+			}
+		} else {
+			fmt.Printf("selftest %s: %d cases x %d process configurations identical\n", id, n, len(cfgs))
+		}
+		mu.Unlock()
+	}
+	if bad > 0 {
+		fmt.Printf("selftest: %d property engine(s) NOT deterministic\n", bad)
+		return 2
+	}
+	fmt.Printf("selftest: all %d property engines deterministic over %d case hashes\n", len(ids), total)
+	return 0
+}
